@@ -75,6 +75,15 @@ Theorem C07_exclusion_initially : forall ts, (forall t, In t ts -> t_held t = []
 Proof. exact exclusive_initial. Qed.
 Print Assumptions C07_exclusion_kept.
 
+(** a write section excludes every access by others to the fields its lock guards (so nothing can be read between the
+    handler runs and the cache write of UpdateResource, which are one write section of m.mu: C07_policy_before_data_on_every_path) *)
+Theorem C07_write_section_excludes_readers : forall cap ts i j ti tj f l w,
+  exclusive ts -> i <> j -> nth_error ts i = Some ti -> nth_error ts j = Some tj ->
+  In (l, true) (t_held ti) ->
+  v_lockset (checked cap tj) = true -> accesses tj = Some (f, l, w) -> False.
+Proof. exact writer_excludes_accesses. Qed.
+Print Assumptions C07_write_section_excludes_readers.
+
 (** (c) Policy before data, in the state machine: what the handlers of an accepted response are handed is exactly what
     lookups can see after that (atomic) step, and the cache never changes without a handler run in the same step. *)
 Theorem C07_handlers_see_the_new_cache : forall c o s v n p u,
@@ -87,3 +96,13 @@ Theorem C07_cache_change_runs_handlers : forall c o s v n p,
   s_cache (fst (fst (handle_resp c o s v n p))) <> s_cache s -> snd (handle_resp c o s v n p) <> [].
 Proof. exact cache_change_runs_handlers. Qed.
 Print Assumptions C07_cache_change_runs_handlers.
+
+(** non-vacuity: two threads on checked paths, the first waits for the second, the second does not wait *)
+Theorem C07_example :
+  let p1 := [AAcq LM true; AAcq LC true; ARel LC true; ARel LM true] in
+  let p2 := [AAcq LC false; ARel LC false] in
+  let ts := [ {| t_held := [(LM, true)]; t_frames := [[]]; t_path := [AAcq LC true; ARel LC true; ARel LM true] |};
+              {| t_held := [(LC, false)]; t_frames := [[]]; t_path := [ARel LC false] |} ] in
+  v_all (check_path true [] [[]] p1) = true /\ v_all (check_path true [] [[]] p2) = true /\
+  waits_for ts 0 1 /\ wants (nth 1 ts (start [])) = None.
+Proof. exact waits_example. Qed.
